@@ -13,7 +13,21 @@ Open Scope N_scope.
                       (DLT_MAX_STORAGE_MSG_SIZE, or DLT_MAX_STORAGE_MSG_SIZE + 4 when look4) *)
 Inductive wiring : Type :=
 | WCursor
-| WLowMark (cap low : N) (look4 : bool).
+| WLowMark (cap low : N) (look4 : bool)
+| WSliced (cap low : N) (look4 : bool) (ctor : N) (sched : list (N * N)).
+(* WSliced cap low look4 ctor sched
+                      the same wiring as WLowMark, but the inner source satisfies its reads in slices: [sched] is the
+                      cyclic run-length list (count, size) of the read sizes it chooses (each clipped to [1, room] and to
+                      what is left; [] = every read satisfied completely).  [ctor] says how the iterator was built:
+                      0 = DltMessageIterator::new, 1 = the same with a logger attached (it.log = Some(..)),
+                      2 / 3 = adlt::utils::get_dlt_message_iterator(ext, start, &mut reader, get_new_namespace(), None,
+                      None, None / Some(log)) with a DLT extension -- through the boxed iterator only the items and the
+                      reader's unconsumed bytes can be observed, not the counters.
+                      The model's answer does NOT depend on [sched]: Properties/C01.v
+                      C01_iter_recovers_all_scheduled_reads (streams with markers only at the message starts, any
+                      schedule, low >= 65551), C04_iter_chunk_independent (any stream, low >= 65555) and C04_lookahead
+                      (a stream shorter than the low mark is always shown completely).  The harness generates
+                      out-of-domain streams longer than the low mark only with look4. *)
 
 (* input: wiring, start index, byte stream as segments (count, block) = block repeated count times *)
 Definition case_C01 := (wiring * N * list (N * list N))%type.
@@ -27,7 +41,8 @@ Definition MAX_STORAGE_MSG : N := 16 + 65535.
 Definition wiring_ok (w : wiring) : bool :=
   match w with
   | WCursor => true
-  | WLowMark cap low look4 => (MAX_STORAGE_MSG + (if look4 then 4 else 0) <=? low) && (low + 4096 <=? cap)
+  | WLowMark cap low look4 | WSliced cap low look4 _ _ =>
+      (MAX_STORAGE_MSG + (if look4 then 4 else 0) <=? low) && (low + 4096 <=? cap)
   end.
 
 Fixpoint rep_block (k : nat) (b : bytes) : bytes := match k with O => [] | S k' => b ++ rep_block k' b end.
@@ -60,6 +75,14 @@ Definition o_run (r : res (list msg * ist * bytes)) : otree :=
   | OutOfFuel => T [L 2]
   end.
 
+(* what can be seen through Box<dyn Iterator<Item = DltMessage>>: the items and the bytes the reader still holds *)
+Definition o_run_items (r : res (list msg * ist * bytes)) : otree :=
+  match r with
+  | Ok (ms, _, rest) => T [L 3; T (map o_msg ms); L (blen rest)]
+  | Panic _ => T [L 1]
+  | OutOfFuel => T [L 2]
+  end.
+
 Definition run_C01 (c : case_C01) : otree :=
   let '(w, start, segs) := c in
   match w with
@@ -67,6 +90,10 @@ Definition run_C01 (c : case_C01) : otree :=
   | WLowMark cap low look4 =>
       (* the crate's constants must meet the bound; then the buffered run is the whole-buffer run *)
       if wiring_ok w then o_run (run_iter start (bytes_of_segs segs))
+      else T [L 9; L MAX_STORAGE_MSG; L low; L cap]
+  | WSliced cap low look4 ctor _ =>
+      (* sliced reads: the same answer for every schedule (see above) *)
+      if wiring_ok w then (if 2 <=? ctor then o_run_items else o_run) (run_iter start (bytes_of_segs segs))
       else T [L 9; L MAX_STORAGE_MSG; L low; L cap]
   end.
 Definition agree_C01 : case_C01 -> otree -> bool := agree_det run_C01.
